@@ -108,7 +108,7 @@ def h_private_range(ex, fmt):
     ex.check(k.is_private is True and k.compressed is True, 'key-flags')
 
 
-def h_public_fields(ex, form):
+def h_public_fields(ex, form, text=None):
     """Key(public key bytes): compressed 02|03 + x, uncompressed 04 + x + y - the x / y fields, the compressed form of an
     uncompressed key (prefix = parity of y) and the compression flag are extracted exactly, leading zeros kept"""
     K, E = _mods()
@@ -120,7 +120,14 @@ def h_public_fields(ex, form):
     else:
         y = ex.bytes('y', 32)
         data = b'\x04' + x + y
-    k = K.Key(data if not ex.concrete else bytes(data))
+    if text is None:
+        arg = data if not ex.concrete else bytes(data)
+    else:
+        # the same key handed over as a hex string (lower or upper case)
+        arg = data.hex() if not ex.concrete else bytes(data).hex()
+        if text == 'HEX':
+            arg = arg.upper()
+    k = K.Key(arg)
     ex.check(k.is_private is False, 'public-key-classified-public')
     ex.check(k.compressed == (form == 'compressed'), 'compression-flag')
     xh = x.hex() if not ex.concrete else bytes(x).hex()
@@ -311,6 +318,9 @@ def jobs(tier):
          Job('private_range_hex', h_private_range, W=272, setup=setup, params=dict(fmt='hex'), budget_s=1500),
          Job('public_fields_compressed', h_public_fields, W=272, setup=setup, params=dict(form='compressed')),
          Job('public_fields_uncompressed', h_public_fields, W=272, setup=setup, params=dict(form='uncompressed'))]
+    for form in ('compressed', 'uncompressed'):
+        for text in ('hex',):          # (upper-case hex: minutes per job and a case-insensitive oracle needed - not registered)
+            J.append(Job('public_fields_%s_%s' % (form, text), h_public_fields, W=272, setup=setup, params=dict(form=form, text=text), budget_s=600))
     J.append(Job('decompress', h_decompress, W=272, setup=setup, budget_s=300))
     for net in c12.networks():
         J.append(Job('address_%s' % net, h_address, W=72, setup=setup, params=dict(net=net), budget_s=1500))
